@@ -145,7 +145,8 @@ Record frame (s s' : sst) : Prop := {
   fr_mono : forall i, is_closed s i = true -> is_closed s' i = true;
   fr_qb : forall q, In q (ss_qb s') -> In q (ss_qb s) \/ qb_ctx q = None;
   fr_sctx : forall p, In p (ss_sctx s') -> In p (ss_sctx s) \/ In (fst (snd p)) (ss_allctx s');
-  fr_allctx : incl (ss_allctx s) (ss_allctx s')
+  fr_allctx : incl (ss_allctx s) (ss_allctx s');
+  fr_rets : ss_rets s' = ss_rets s
 }.
 
 Lemma frame_refl : forall s, frame s s.
@@ -174,6 +175,7 @@ Proof.
   - intros p H. destruct (fr_sctx1 p H) as [H1|H1]; [|tauto].
     destruct (fr_sctx0 p H1) as [H2|H2]; [tauto|]. right. apply fr_allctx1. exact H2.
   - eapply incl_tran; eassumption.
+  - congruence.
 Qed.
 
 (* no ended context, not disposed, not crashed, no WhenQuery binding with a context *)
@@ -260,6 +262,7 @@ Proof.
   - tauto.
   - tauto.
   - apply incl_refl.
+  - reflexivity.
 Qed.
 
 Lemma visit_tb_frame : forall s cl id x, frame s (visit_tb s cl id x).
@@ -320,6 +323,7 @@ Proof.
   - intros q H. left. apply Hqb. exact H.
   - intros p H. left. apply Hsc. exact H.
   - apply incl_refl.
+  - reflexivity.
 Qed.
 
 Lemma frame_set_misc : forall s qb wq qe sctx cl,
@@ -1064,3 +1068,653 @@ Section Outer.
              ++ right. split; [exact Hd2|]. rewrite <- He. symmetry. apply existsb_hit_same; assumption.
   Qed.
 End Outer.
+
+(* ------------------------------------------------------------ the invariant *)
+
+Definition Inv (a : nat -> bool) (s : sst) : Prop :=
+  quiet s /\ NoDup (map wb_id (ss_wb s)) /\
+  (forall b, In b (ss_wb s) -> wb_ok (ss_closed s) a b) /\
+  (forall i, In i (map wb_id (ss_wb s)) -> i < ss_next s /\ ~ In i (oids s)) /\
+  (forall i, In i (oids s) -> i < ss_next s) /\
+  (forall i, is_closed s i = true -> i < ss_next s).
+
+Lemma Inv_frame : forall a s s', Inv a s -> frame s s' -> Inv a s'.
+Proof.
+  intros a s s' [Hq [Hnd [Hok [Hsep [Hb Hc]]]]] F. pose proof F as F'. destruct F.
+  split; [eapply quiet_frame; eassumption|]. rewrite fr_wb0.
+  split; [exact Hnd|]. split; [|split; [|split]].
+  - intros b Hin. eapply wb_ok_cl; [apply Hok; exact Hin | apply fr_mono0 |].
+    intros Hm. destruct (fr_closed0 _ Hm) as [H|[H|H]]; [exact H | |].
+    + exfalso. apply (proj2 (Hsep _ (in_map wb_id _ _ Hin))). exact H.
+    + exfalso. pose proof (proj1 (Hsep _ (in_map wb_id _ _ Hin))). lia.
+  - intros i Hi. destruct (Hsep i Hi) as [H1 H2]. split; [lia|].
+    intros Ho. destruct (fr_oids0 i Ho) as [H|H]; [contradiction | lia].
+  - intros i Hi. destruct (fr_oids0 i Hi) as [H|H]; [apply Hb in H; lia | lia].
+  - intros i Hi. destruct (fr_closed0 i Hi) as [H|[H|H]]; [apply Hc in H; lia | apply Hb in H; lia | lia].
+Qed.
+
+Lemma process_when_ctx_id : forall s, ss_done s = [] -> process_when_ctx s = s.
+Proof.
+  intros s H. unfold process_when_ctx. generalize (ss_wctx s) as l. intros l. revert s H.
+  induction l as [|[c ids] r IH]; intros s H; simpl; [reflexivity|].
+  rewrite H. simpl. apply IH. exact H.
+Qed.
+
+Lemma process_when_walk : forall s act deact, ss_done s = [] ->
+  process_when s act deact = fold_left (walk_step act) (act ++ deact) s.
+Proof. intros s act deact H. unfold process_when. rewrite process_when_ctx_id by exact H. reflexivity. Qed.
+
+Lemma hybrid_all : forall a act deact x,
+  hybrid a act (act ++ deact) x = act_upd a (EProcess act deact [] [] 0%N) x.
+Proof.
+  intros a act deact x. unfold hybrid. cbn [act_upd]. rewrite mem_app.
+  destruct (mem x act); [reflexivity|]. destruct (mem x deact); reflexivity.
+Qed.
+
+Lemma wsame_oids : forall s s', wsame s s' -> oids s' = oids s.
+Proof.
+  intros s s' [A [B [C [D [E [F [G [H _]]]]]]]]. unfold oids. congruence.
+Qed.
+
+Lemma wsame_quiet : forall s s', wsame s s' -> quiet s -> quiet s'.
+Proof.
+  intros s s' [A [B [C [D [E [F [G [H [I [J [K [L M]]]]]]]]]]]] [Q1 [Q2 [Q3 [Q4 Q5]]]].
+  unfold quiet. rewrite J, K, L, D, G, H. tauto.
+Qed.
+
+(* ProcessWhen keeps the invariant, for the activity it was told *)
+Lemma Inv_process_when : forall a s act deact,
+  Inv a s ->
+  let a' := act_upd a (EProcess act deact [] [] 0%N) in
+  let s' := process_when s act deact in
+  Inv a' s' /\ wsame s s' /\
+  (forall i, is_closed s i = true -> is_closed s' i = true) /\
+  (forall b, In b (ss_wb s) -> exists b', In b' (ss_wb s') /\
+     wb_id b' = wb_id b /\ wb_neg b' = wb_neg b /\ wb_states b' = wb_states b /\
+     (dead (ss_closed s) b -> dead (ss_closed s') b') /\
+     (live (ss_closed s) a b ->
+        (live (ss_closed s') a' b' /\ existsb (hit a act deact b) (seq 1 (length (act ++ deact))) = false)
+        \/ (dead (ss_closed s') b' /\ existsb (hit a act deact b) (seq 1 (length (act ++ deact))) = true))).
+Proof.
+  intros a s act deact [Hq [Hnd [Hok [Hsep [Hb Hc]]]]] a' s'.
+  assert (Hdone : ss_done s = []) by apply Hq.
+  subst s'. rewrite (process_when_walk s act deact Hdone).
+  destruct (outer_loop a act deact (act ++ deact) [] s eq_refl Hdone Hnd)
+    as [Hsame [Hids [Hok' [Hmono [Hcl Htr]]]]].
+  { intros b Hin. eapply wb_ok_ext; [|apply Hok; exact Hin]. intros x _. reflexivity. }
+  set (s' := fold_left (walk_step act) (act ++ deact) s) in *.
+  assert (Hext : forall cl b, wb_ok cl (hybrid a act (act ++ deact)) b -> wb_ok cl a' b).
+  { intros cl b H. eapply wb_ok_ext; [|exact H]. intros x _. apply hybrid_all. }
+  split; [|split; [exact Hsame|split; [exact Hmono|]]].
+  - split; [eapply wsame_quiet; eassumption|]. rewrite Hids.
+    split; [exact Hnd|]. split; [|split; [|split]].
+    + intros b Hin. apply Hext. apply Hok'. exact Hin.
+    + intros i Hi. rewrite (wsame_oids _ _ Hsame). destruct Hsame as [Hn _]. rewrite Hn. apply Hsep. exact Hi.
+    + intros i Hi. rewrite (wsame_oids _ _ Hsame) in Hi. destruct Hsame as [Hn _]. rewrite Hn. apply Hb. exact Hi.
+    + intros i Hi. destruct Hsame as [Hn _]. rewrite Hn. destruct (Hcl i Hi) as [H|H]; [apply Hc; exact H|].
+      apply Hsep. exact H.
+  - intros b Hin. destruct (Htr b Hin) as [b' [Hb' [Hi [Hn [Hs [Hd Hl]]]]]].
+    exists b'. split; [exact Hb'|]. do 3 (split; [assumption|]). split; [exact Hd|].
+    intros Hlive. simpl length in Hl.
+    destruct Hl as [[Hl1 He]|[Hd1 He]].
+    + eapply live_ext; [|exact Hlive]. reflexivity.
+    + left. split; [|exact He]. eapply live_ext; [|exact Hl1]. intros x _. apply hybrid_all.
+    + right. split; assumption.
+Qed.
+
+(* ------------------------------------------------------------ API calls *)
+
+Ltac frame_tac :=
+  constructor; unfold oids, is_closed; psimpl;
+  [ lia | reflexivity | reflexivity | reflexivity | reflexivity | reflexivity
+  | let i := fresh "i" in let H := fresh "H" in
+    intros i H; repeat (rewrite map_app in H); repeat (rewrite in_app_iff in H); simpl in H;
+    repeat rewrite in_app_iff; intuition (subst; lia)
+  | let i := fresh "i" in let H := fresh "H" in intros i H; tauto
+  | let i := fresh "i" in let H := fresh "H" in intros i H; exact H
+  | let q := fresh "q" in let H := fresh "H" in
+    intros q H; try (apply in_app_or in H; simpl in H); intuition (subst; auto)
+  | let p := fresh "p" in let H := fresh "H" in
+    intros p H; try (apply in_app_or in H; simpl in H); intuition (subst; simpl; auto)
+  | let x := fresh "x" in let H := fresh "H" in intros x H; simpl; auto
+  | reflexivity ].
+
+Lemma sub_time_frame : forall s cl sts times ctx, frame s (fst (sub_time s cl sts times ctx)).
+Proof.
+  intros s cl sts times ctx. unfold sub_time.
+  destruct (reuse_time s sts times ctx); [apply frame_refl|].
+  match goal with |- context [if ?c then _ else _] => destruct c end; [apply frame_refl|].
+  cbn [fst]. destruct ctx; frame_tac.
+Qed.
+
+Definition other_op (o : sop) : bool :=
+  match o with
+  | OWhen _ _ | OWhenNot _ _ | OCancel _ | ODispose | OWhenQuery _ (Some _) => false
+  | _ => true
+  end.
+
+Lemma do_op_frame : forall s v o, other_op o = true -> frame s (fst (do_op s v o)).
+Proof.
+  intros s v o Ho. destruct o; try discriminate; unfold do_op.
+  - destruct (ss_disposed s); [apply frame_refl | apply sub_time_frame].
+  - destruct (ss_disposed s); [apply frame_refl | apply sub_time_frame].
+  - destruct (ss_disposed s); [apply frame_refl | apply sub_time_frame].
+  - destruct ctx; [discriminate|].
+    destruct (ss_disposed s || ctx_done s None); [apply frame_refl|]. cbn [fst]. frame_tac.
+  - destruct (ss_disposed s || (tick <=? v_qtick v)%N); [apply frame_refl|]. cbn [fst]. frame_tac.
+  - destruct (ss_disposed s || negb (v_running v)); [apply frame_refl|]. cbn [fst]. frame_tac.
+  - destruct (negb (known v [s0])); [apply frame_refl|].
+    destruct (sctx_get (ss_sctx s) s0) as [[id t0]|]; [apply frame_refl|]. cbn [fst]. frame_tac.
+  - cbn [fst]. frame_tac.
+  - apply frame_refl.
+Qed.
+
+Lemma Inv_add_ret : forall a s k r, Inv a s -> Inv a (add_ret s k r).
+Proof. intros a s k r H. unfold Inv, quiet, oids, is_closed in *. psimpl. exact H. Qed.
+
+Lemma fold_aset_get : forall (g : nat -> bool) l init x,
+  aget (fold_left (fun fl z => aset fl z (g z)) l init) x = if mem x l then g x else aget init x.
+Proof.
+  intros g. induction l as [|z r IH]; intros init x; simpl; [reflexivity|].
+  rewrite IH. cbn [mem existsb]. fold (mem x r). destruct (mem x r); [rewrite orb_true_r; reflexivity|].
+  rewrite orb_false_r. destruct (Nat.eqb x z) eqn:E.
+  - apply Nat.eqb_eq in E. subst. apply aget_aset_same.
+  - apply Nat.eqb_neq in E. apply aget_aset_other. exact E.
+Qed.
+
+Lemma NoDup_snoc : forall (l : list nat) x, NoDup l -> ~ In x l -> NoDup (l ++ [x]).
+Proof.
+  induction l as [|y r IH]; intros x Hnd Hx; simpl.
+  - constructor; [tauto | constructor].
+  - inversion Hnd as [|? ? Hy Hr]. subst. constructor.
+    + intros H. apply in_app_or in H. destruct H as [H|[H|[]]]; [contradiction|]. subst. apply Hx. left. reflexivity.
+    + apply IH; [exact Hr|]. intros H. apply Hx. right. exact H.
+Qed.
+
+Lemma every_refl : forall l, every l l = true.
+Proof. intros l. unfold every. apply forallb_forall. intros x Hx. apply mem_In. exact Hx. Qed.
+
+Lemma set_eqb_refl : forall l, set_eqb l l = true.
+Proof. intros l. unfold set_eqb. rewrite every_refl. reflexivity. Qed.
+
+Lemma filter_hd : forall (A : Type) (f : A -> bool) l b r, filter f l = b :: r -> In b l /\ f b = true.
+Proof.
+  intros A f l b r H. assert (Hin : In b (filter f l)) by (rewrite H; left; reflexivity).
+  apply filter_In in Hin. exact Hin.
+Qed.
+
+(* Subscriptions.When / WhenNot on duplicate-free known states *)
+Lemma sub_when_spec : forall a s v neg sts ctx,
+  Inv a s -> NoDup sts -> (forall x, mem x (v_active v) = a x) ->
+  let s' := fst (sub_when s v neg sts ctx) in
+  let r := snd (sub_when s v neg sts ctx) in
+  Inv a s' /\ incl (ss_wb s) (ss_wb s') /\ ss_rets s' = ss_rets s /\
+  (forall i, is_closed s i = true -> is_closed s' i = true) /\
+  ((full neg a sts = true /\ r = RChan 0 /\ s' = s) \/
+   (full neg a sts = false /\ exists b, In b (ss_wb s') /\ r = RChan (wb_id b) /\
+      live (ss_closed s') a b /\ wb_neg b = neg /\ set_eqb (wb_states b) sts = true)).
+Proof.
+  intros a s v neg sts ctx HI Hnd Hcoh. pose proof HI as [Hq [Hndw [Hok [Hsep [Hb Hc]]]]].
+  unfold sub_when. cbv zeta.
+  pose (is := fun x => mem x (v_active v)).
+  assert (Hcond : (if neg then forallb (fun x => negb (mem x (v_active v))) sts
+                   else forallb (fun x => mem x (v_active v)) sts) = full neg a sts).
+  { transitivity (full neg is sts); [destruct neg; reflexivity|]. apply full_ext. intros y _. apply Hcoh. }
+  rewrite Hcond.
+  assert (Hcd : ctx_done s ctx = false).
+  { unfold ctx_done. destruct ctx; [|reflexivity]. destruct Hq as [Hd _]. rewrite Hd. reflexivity. }
+  rewrite Hcd, orb_false_r.
+  destruct (full neg a sts) eqn:Ef.
+  - cbn [fst snd]. split; [exact HI|]. split; [apply incl_refl|]. split; [reflexivity|]. split; [tauto|].
+    left. tauto.
+  - destruct (reuse_when s neg sts ctx) as [id|] eqn:Er.
+    + (* an existing binding is reused *)
+      cbn [fst snd]. split; [exact HI|]. split; [apply incl_refl|]. split; [reflexivity|]. split; [tauto|].
+      right. split; [reflexivity|]. unfold reuse_when in Er. destruct sts as [|s0 rest]; [discriminate|].
+      match type of Er with context [filter ?f ?l] => destruct (filter f l) as [|b r] eqn:Efl end; [discriminate|].
+      inversion Er. subst id. apply filter_hd in Efl. destruct Efl as [Hin Hf].
+      repeat rewrite andb_true_iff in Hf. destruct Hf as [[[Hm Hn] Hs] Hx].
+      exists b. split; [exact Hin|]. split; [reflexivity|].
+      split.
+      * destruct (Hok b Hin) as [[Hd _]|Hl]; [|exact Hl]. rewrite Hd in Hm. discriminate.
+      * split; [apply eqb_prop; exact Hn | exact Hs].
+    + (* a new binding *)
+      cbn [fst snd].
+      set (id := ss_next s).
+      match goal with |- context [set_when s (ss_wb s ++ [?bb]) _ _] => set (b := bb) end.
+      assert (Hidfresh : ~ In id (map wb_id (ss_wb s))).
+      { intros H. apply Hsep in H. unfold id in H. lia. }
+      assert (Hncl : mem id (ss_closed s) = false).
+      { destruct (mem id (ss_closed s)) eqn:E; [|reflexivity]. apply Hc in E. unfold id in E. lia. }
+      assert (Hlive : live (ss_closed s) a b).
+      { unfold live, b. cbn [wb_idx wb_states wb_id wb_total wb_flags wb_matched wb_neg].
+        split; [reflexivity|]. split; [exact Hnd|]. split.
+        { intros E. subst sts. destruct neg; discriminate. }
+        split; [exact Hncl|]. split; [reflexivity|]. split.
+        { intros x Hx. rewrite (fold_aset_get is). apply mem_In in Hx. rewrite Hx. apply Hcoh. }
+        assert (Hcnt : length (filter (fun x => if neg then negb (mem x (v_active v)) else mem x (v_active v)) sts)
+                       = cnt neg a sts).
+        { transitivity (cnt neg is sts); [reflexivity|]. apply cnt_ext. intros y _. apply Hcoh. }
+        rewrite Hcnt. split; [reflexivity|]. apply cnt_lt_full in Ef. lia. }
+      split; [|split; [|split; [|split]]].
+      * (* Inv *)
+        unfold Inv, quiet, oids, is_closed in *. psimpl.
+        split; [exact Hq|]. rewrite map_app. cbn [map]. split; [apply NoDup_snoc; assumption|].
+        split; [|split; [|split]].
+        -- intros b' Hb'. apply in_app_or in Hb'. destruct Hb' as [Hb'|[Hb'|[]]]; [apply Hok; exact Hb'|].
+           subst b'. right. exact Hlive.
+        -- intros i Hi. apply in_app_or in Hi. destruct Hi as [Hi|[Hi|[]]].
+           ++ destruct (Hsep i Hi). split; [lia | assumption].
+           ++ subst i. cbn [wb_id b]. split; [unfold id; lia|]. intros H. apply Hb in H. unfold id in H. lia.
+        -- intros i Hi. apply Hb in Hi. lia.
+        -- intros i Hi. apply Hc in Hi. lia.
+      * psimpl. intros x Hx. apply in_or_app. left. exact Hx.
+      * psimpl. reflexivity.
+      * unfold is_closed. psimpl. tauto.
+      * right. split; [reflexivity|]. exists b. psimpl. split; [apply in_or_app; right; left; reflexivity|].
+        split; [reflexivity|]. split; [exact Hlive|]. split; [reflexivity | apply set_eqb_refl].
+Qed.
+
+(* ------------------------------------------------------------ steps *)
+
+Definition ev_coh (a : nat -> bool) (e : sevent) : Prop :=
+  match e with
+  | EOp _ v (OWhen _ _) | EOp _ v (OWhenNot _ _) => forall x, mem x (v_active v) = a x
+  | _ => True
+  end.
+
+Lemma step_op : forall s k v o, ss_crashed s = false ->
+  step s (EOp k v o) = add_ret (fst (do_op s v o)) k (snd (do_op s v o)).
+Proof. intros s k v o H. unfold step. rewrite H. destruct (do_op s v o). reflexivity. Qed.
+
+Lemma is_closed_add_ret : forall s k r i, is_closed (add_ret s k r) i = is_closed s i.
+Proof. reflexivity. Qed.
+
+(* what a plain API call does to the invariant *)
+Lemma do_op_Inv : forall a s v o,
+  Inv a s -> plain_ev (EOp 0 v o) = true -> ev_coh a (EOp 0 v o) ->
+  Inv a (fst (do_op s v o)) /\ incl (ss_wb s) (ss_wb (fst (do_op s v o))) /\
+  ss_rets (fst (do_op s v o)) = ss_rets s /\
+  (forall i, is_closed s i = true -> is_closed (fst (do_op s v o)) i = true).
+Proof.
+  intros a s v o HI Hp Hc.
+  assert (Hd : ss_disposed s = false) by apply HI.
+  destruct (other_op o) eqn:Eo.
+  - pose proof (do_op_frame s v o Eo) as F. split; [eapply Inv_frame; eassumption|].
+    destruct F. split; [rewrite fr_wb0; apply incl_refl|]. split; [exact fr_rets0 | exact fr_mono0].
+  - destruct o; try discriminate; cbn in Hp; try discriminate.
+    + unfold do_op. rewrite Hd. destruct (negb (known v sts)).
+      * cbn [fst]. split; [exact HI|]. split; [apply incl_refl|]. split; [reflexivity | tauto].
+      * destruct (sub_when_spec a s v false (uniq sts) ctx HI (uniq_NoDup sts) Hc) as [A [B [C [D _]]]].
+        tauto.
+    + unfold do_op. rewrite Hd. destruct (negb (known v sts)).
+      * cbn [fst]. split; [exact HI|]. split; [apply incl_refl|]. split; [reflexivity | tauto].
+      * destruct (sub_when_spec a s v true (uniq sts) ctx HI (uniq_NoDup sts) Hc) as [A [B [C [D _]]]].
+        tauto.
+    + destruct ctx; discriminate.
+Qed.
+
+Lemma quiet_crashed : forall a s, Inv a s -> ss_crashed s = false.
+Proof. intros a s H. apply H. Qed.
+
+Lemma process_subs_Inv : forall a s act deact before live qt,
+  Inv a s ->
+  let a' := act_upd a (EProcess act deact before live qt) in
+  let s1 := process_when s act deact in
+  let s' := process_subs s act deact before live qt in
+  Inv a' s' /\ ss_wb s' = ss_wb s1 /\ ss_rets s' = ss_rets s /\
+  (forall i, is_closed s1 i = true -> is_closed s' i = true) /\
+  (forall i, is_closed s i = true -> is_closed s' i = true).
+Proof.
+  intros a s act deact before live qt HI a' s1 s'.
+  destruct (Inv_process_when a s act deact HI) as [HI1 [Hsame [Hmono _]]].
+  fold s1 in HI1, Hsame, Hmono.
+  change (act_upd a (EProcess act deact [] [] 0%N)) with a' in HI1.
+  assert (Hq1 : quiet s1) by apply HI1.
+  pose proof (process_when_time_frame s1 before live Hq1) as F2.
+  set (s2 := process_when_time s1 before live) in *.
+  pose proof (process_when_queue_frame s2 qt) as F3.
+  set (s3 := process_when_queue s2 qt) in *.
+  assert (Hq3 : quiet s3).
+  { eapply quiet_frame; [|exact F3]. eapply quiet_frame; [exact Hq1 | exact F2]. }
+  pose proof (process_when_query_frame s3 live Hq3) as F4.
+  assert (F : frame s1 s').
+  { eapply frame_trans; [exact F2|]. eapply frame_trans; [exact F3|]. exact F4. }
+  split; [eapply Inv_frame; eassumption|]. destruct F.
+  split; [exact fr_wb0|]. split.
+  - rewrite fr_rets0. apply Hsame.
+  - split; [exact fr_mono0|]. intros i Hi. apply fr_mono0. apply Hmono. exact Hi.
+Qed.
+
+Lemma step_Inv : forall a s e,
+  Inv a s -> plain_ev e = true -> ev_coh a e ->
+  Inv (act_upd a e) (step s e) /\
+  (forall i, is_closed s i = true -> is_closed (step s e) i = true) /\
+  match e with
+  | EProcess _ _ _ _ _ => ss_rets (step s e) = ss_rets s
+  | EOp k v o => incl (ss_wb s) (ss_wb (step s e)) /\
+                 ss_rets (step s e) = (k, snd (do_op s v o)) :: ss_rets s
+  | _ => incl (ss_wb s) (ss_wb (step s e)) /\ ss_rets (step s e) = ss_rets s
+  end.
+Proof.
+  intros a s e HI Hp Hc. pose proof (quiet_crashed a s HI) as Hcr.
+  destruct e as [k v o|act deact|act deact before live qt| |v p|].
+  - rewrite (step_op s k v o Hcr). cbn [act_upd].
+    assert (Hp0 : plain_ev (EOp 0 v o) = true) by exact Hp.
+    assert (Hc0 : ev_coh a (EOp 0 v o)) by exact Hc.
+    destruct (do_op_Inv a s v o HI Hp0 Hc0) as [A [B [C D]]].
+    split; [apply Inv_add_ret; exact A|]. split; [intros i Hi; rewrite is_closed_add_ret; apply D; exact Hi|].
+    split; [exact B|]. psimpl. rewrite C. reflexivity.
+  - unfold step. rewrite Hcr. cbn [act_upd].
+    pose proof (process_state_ctx_frame s act deact (proj1 HI)) as F.
+    split; [eapply Inv_frame; eassumption|]. destruct F.
+    split; [exact fr_mono0|]. split; [rewrite fr_wb0; apply incl_refl | exact fr_rets0].
+  - unfold step. rewrite Hcr.
+    destruct (process_subs_Inv a s act deact before live qt HI) as [A [B [C [D E]]]].
+    split; [exact A|]. split; [exact E | exact C].
+  - unfold step. rewrite Hcr. cbn [act_upd].
+    pose proof (process_queue_ends_frame s) as F.
+    split; [eapply Inv_frame; eassumption|]. destruct F.
+    split; [exact fr_mono0|]. split; [rewrite fr_wb0; apply incl_refl | exact fr_rets0].
+  - unfold step. rewrite Hcr. cbn [act_upd]. split; [exact HI|]. split; [tauto|].
+    split; [apply incl_refl | reflexivity].
+  - unfold step. rewrite Hcr. cbn [act_upd]. split; [exact HI|]. split; [tauto|].
+    split; [apply incl_refl | reflexivity].
+Qed.
+
+Lemma coherent_cons : forall a e r, coherent a (e :: r) <-> ev_coh a e /\ coherent (act_upd a e) r.
+Proof. intros a e r. cbn [coherent]. unfold ev_coh. tauto. Qed.
+
+Lemma coherent_app : forall l1 l2 a,
+  coherent a (l1 ++ l2) <-> coherent a l1 /\ coherent (acts a l1) l2.
+Proof.
+  induction l1 as [|e r IH]; intros l2 a.
+  - cbn. tauto.
+  - rewrite <- app_comm_cons. rewrite !coherent_cons. unfold acts. cbn [fold_left].
+    fold (acts (act_upd a e) r). rewrite IH. tauto.
+Qed.
+
+Lemma run_cons : forall s e r, run s (e :: r) = run (step s e) r.
+Proof. reflexivity. Qed.
+
+Lemma run_app : forall s l1 l2, run s (l1 ++ l2) = run (run s l1) l2.
+Proof. intros. unfold run. apply fold_left_app. Qed.
+
+Lemma run_Inv : forall es a s,
+  Inv a s -> forallb plain_ev es = true -> coherent a es ->
+  Inv (acts a es) (run s es) /\ (forall i, is_closed s i = true -> is_closed (run s es) i = true).
+Proof.
+  induction es as [|e r IH]; intros a s HI Hp Hc.
+  - cbn. tauto.
+  - cbn [forallb] in Hp. apply andb_true_iff in Hp. destruct Hp as [Hp1 Hp2].
+    apply coherent_cons in Hc. destruct Hc as [Hc1 Hc2].
+    destruct (step_Inv a s e HI Hp1 Hc1) as [A [B _]].
+    rewrite run_cons. unfold acts. cbn [fold_left]. fold (acts (act_upd a e) r).
+    destruct (IH (act_upd a e) (step s e) A Hp2 Hc2) as [C D].
+    split; [exact C|]. intros i Hi. apply D. apply B. exact Hi.
+Qed.
+
+Lemma ret_stable : forall post a s k,
+  Inv a s -> forallb plain_ev post = true -> coherent a post -> fresh_k k post ->
+  ret_of (ss_rets (run s post)) k = ret_of (ss_rets s) k.
+Proof.
+  induction post as [|e r IH]; intros a s k HI Hp Hc Hf; [reflexivity|].
+  cbn [forallb] in Hp. apply andb_true_iff in Hp. destruct Hp as [Hp1 Hp2].
+  apply coherent_cons in Hc. destruct Hc as [Hc1 Hc2].
+  destruct (step_Inv a s e HI Hp1 Hc1) as [A [_ B]].
+  rewrite run_cons. rewrite (IH (act_upd a e) (step s e) k A Hp2 Hc2).
+  - destruct e as [k' v o|ac de|ac de bf lv qt| |v p|]; cbv beta iota in B.
+    + destruct B as [_ B]. rewrite B. cbn [ret_of].
+      assert (k <> k'). { intros E. subst. apply (Hf (EOp k' v o)); [left; reflexivity | reflexivity]. }
+      apply Nat.eqb_neq in H. rewrite H. reflexivity.
+    + destruct B as [_ B]. rewrite B. reflexivity.
+    + rewrite B. reflexivity.
+    + destruct B as [_ B]. rewrite B. reflexivity.
+    + destruct B as [_ B]. rewrite B. reflexivity.
+    + destruct B as [_ B]. rewrite B. reflexivity.
+  - intros e' He'. apply Hf. right. exact He'.
+Qed.
+
+(* ------------------------------------------------------------ tracking one binding *)
+
+Lemma P_eqb : forall neg g x, P neg g x = Bool.eqb (g x) (negb neg).
+Proof. intros neg g x. unfold P. destruct neg, (g x); reflexivity. Qed.
+
+Lemma full_told : forall neg g sts, full neg g sts = told_cond neg sts g.
+Proof.
+  intros neg g sts. unfold full, told_cond. induction sts as [|x r IH]; simpl; [reflexivity|].
+  rewrite P_eqb, IH. reflexivity.
+Qed.
+
+Lemma existsb_ext' : forall (A : Type) (f g : A -> bool) l,
+  (forall x, f x = g x) -> existsb f l = existsb g l.
+Proof. intros A f g l H. induction l as [|x r IH]; simpl; [reflexivity|]. rewrite H, IH. reflexivity. Qed.
+
+Lemma walk_full_hit : forall a act deact b,
+  walk_full (wb_neg b) (wb_states b) a act deact
+  = existsb (hit a act deact b) (seq 1 (length (act ++ deact))).
+Proof.
+  intros a act deact b. unfold walk_full. apply existsb_ext'. intros n. unfold hit.
+  rewrite full_told. reflexivity.
+Qed.
+
+Lemma live_of_ok : forall cl f b, wb_ok cl f b -> wb_idx b <> [] -> live cl f b.
+Proof. intros cl f b [[A _]|H] Hn; [contradiction | exact H]. Qed.
+
+Lemma live_idx : forall cl f b, live cl f b -> wb_idx b <> [].
+Proof. intros cl f b [A [_ [C _]]]. rewrite A. exact C. Qed.
+
+Lemma live_not_full : forall cl f b, live cl f b -> full (wb_neg b) f (wb_states b) = false.
+Proof.
+  intros cl f b [_ [_ [_ [_ [E [_ [G I]]]]]]]. apply cnt_lt_full. rewrite G, E in I. lia.
+Qed.
+
+Lemma track : forall post a s b,
+  Inv a s -> In b (ss_wb s) -> live (ss_closed s) a b ->
+  forallb plain_ev post = true -> coherent a post ->
+  is_closed (run s post) (wb_id b) = walked_later (wb_neg b) (wb_states b) a post /\
+  (is_closed (run s post) (wb_id b) = false ->
+   held_later (told_cond (wb_neg b) (wb_states b)) a post = false).
+Proof.
+  induction post as [|e r IH]; intros a s b HI Hin Hl Hp Hc.
+  - cbn. destruct Hl as [_ [_ [_ [D _]]]]. unfold is_closed. rewrite D. tauto.
+  - cbn [forallb] in Hp. apply andb_true_iff in Hp. destruct Hp as [Hp1 Hp2].
+    apply coherent_cons in Hc. destruct Hc as [Hc1 Hc2].
+    destruct (step_Inv a s e HI Hp1 Hc1) as [A [B C]].
+    rewrite run_cons.
+    destruct e as [k v o|ac de|ac de bf lv qt| |v p|].
+    3: {
+      (* processSubscriptions *)
+      cbn [walked_later held_later]. set (a' := act_upd a (EProcess ac de bf lv qt)) in *.
+      destruct (Inv_process_when a s ac de HI) as [_ [_ [_ Htr]]].
+      destruct (Htr b Hin) as [b' [Hb' [Hi [Hn [Hs [_ Hst]]]]]].
+      destruct (process_subs_Inv a s ac de bf lv qt HI) as [_ [Hwb [_ [Hm1 _]]]].
+      assert (Hstep : step s (EProcess ac de bf lv qt) = process_subs s ac de bf lv qt).
+      { unfold step. rewrite (quiet_crashed a s HI). reflexivity. }
+      rewrite Hstep in *.
+      rewrite walk_full_hit. destruct (Hst Hl) as [[Hl1 He]|[Hd1 He]]; rewrite He; cbn [orb].
+      - (* still open *)
+        assert (Hin' : In b' (ss_wb (process_subs s ac de bf lv qt))) by (rewrite Hwb; exact Hb').
+        assert (Hl' : live (ss_closed (process_subs s ac de bf lv qt)) a' b').
+        { apply live_of_ok; [apply A; exact Hin' | eapply live_idx; exact Hl1]. }
+        destruct (IH a' _ b' A Hin' Hl' Hp2 Hc2) as [I1 I2].
+        pose proof (live_not_full _ _ _ Hl') as Hnf.
+        rewrite Hi, Hn, Hs in I1, I2. rewrite Hn, Hs in Hnf.
+        split; [exact I1|]. intros Hcl.
+        rewrite <- full_told. rewrite Hnf. cbn [orb]. apply I2. exact Hcl.
+      - (* closed by this transition *)
+        assert (Hcl : is_closed (run (process_subs s ac de bf lv qt) r) (wb_id b) = true).
+        { destruct (run_Inv r a' _ A Hp2 Hc2) as [_ Hm]. apply Hm. apply Hm1.
+          destruct Hd1 as [_ Hd1]. rewrite <- Hi. exact Hd1. }
+        rewrite Hcl. split; [reflexivity | discriminate].
+    }
+    all: cbn [walked_later held_later act_upd orb] in *; destruct C as [C _];
+      apply IH; try assumption;
+      [ apply C; exact Hin
+      | apply live_of_ok; [apply A; apply C; exact Hin | eapply live_idx; exact Hl] ].
+Qed.
+
+(* ------------------------------------------------------------ the theorems *)
+
+Lemma Inv_init : forall a, Inv a init_sst.
+Proof.
+  intros a. unfold Inv, quiet, init_sst, oids, is_closed. cbn.
+  repeat split; try constructor; try tauto; try contradiction.
+  - intros i Hi. rewrite orb_false_r in Hi. apply Nat.eqb_eq in Hi. lia.
+Qed.
+
+Lemma forallb_seteq : forall (f : nat -> bool) l l',
+  (forall x, In x l <-> In x l') -> forallb f l = forallb f l'.
+Proof.
+  intros f l l' H. destruct (forallb f l) eqn:E1, (forallb f l') eqn:E2; try reflexivity.
+  - rewrite forallb_forall in E1. assert (forallb f l' = true); [|congruence].
+    apply forallb_forall. intros x Hx. apply E1. apply H. exact Hx.
+  - rewrite forallb_forall in E2. assert (forallb f l = true); [|congruence].
+    apply forallb_forall. intros x Hx. apply E2. apply H. exact Hx.
+Qed.
+
+Lemma mem_seteq : forall x l l', (forall y, In y l <-> In y l') -> mem x l = mem x l'.
+Proof.
+  intros x l l' H. destruct (mem x l) eqn:E1, (mem x l') eqn:E2; try reflexivity.
+  - apply mem_In in E1. apply H in E1. apply mem_In in E1. congruence.
+  - apply mem_In in E2. apply H in E2. apply mem_In in E2. congruence.
+Qed.
+
+Lemma set_eqb_In : forall l l', set_eqb l l' = true -> forall x, In x l <-> In x l'.
+Proof.
+  intros l l' H x. unfold set_eqb, every in H. apply andb_true_iff in H. destruct H as [H1 H2].
+  rewrite forallb_forall in H1, H2. split; intros Hx.
+  - apply mem_In. apply H2. exact Hx.
+  - apply mem_In. apply H1. exact Hx.
+Qed.
+
+Lemma told_cond_seteq : forall neg l l' a, (forall x, In x l <-> In x l') ->
+  told_cond neg l a = told_cond neg l' a.
+Proof. intros. unfold told_cond. apply forallb_seteq. assumption. Qed.
+
+Lemma walk_full_seteq : forall neg l l' a act deact, (forall x, In x l <-> In x l') ->
+  walk_full neg l a act deact = walk_full neg l' a act deact.
+Proof.
+  intros neg l l' a act deact H. unfold walk_full. apply existsb_ext'. intros n.
+  rewrite (mem_seteq _ l l' H). f_equal. apply forallb_seteq. exact H.
+Qed.
+
+Lemma walked_later_seteq : forall neg l l' post a, (forall x, In x l <-> In x l') ->
+  walked_later neg l a post = walked_later neg l' a post.
+Proof.
+  intros neg l l'. induction post as [|e r IH]; intros a H; [reflexivity|].
+  cbn [walked_later]. rewrite (IH _ H). destruct e; try reflexivity.
+  rewrite (walk_full_seteq neg l l' a act deact H). reflexivity.
+Qed.
+
+Lemma held_later_ext : forall (c c' : (nat -> bool) -> bool) post a,
+  (forall g, c g = c' g) -> held_later c a post = held_later c' a post.
+Proof.
+  intros c c'. induction post as [|e r IH]; intros a H; [reflexivity|].
+  cbn [held_later]. rewrite (IH _ H). destruct e; try reflexivity. rewrite H. reflexivity.
+Qed.
+
+Lemma acts_app : forall a l1 l2, acts a (l1 ++ l2) = acts (acts a l1) l2.
+Proof. intros. unfold acts. apply fold_left_app. Qed.
+
+Definition when_op (neg : bool) (sts : list nat) (ctx : option nat) : sop :=
+  if neg then OWhenNot sts ctx else OWhen sts ctx.
+
+(* the state right after a plain When / WhenNot call: either the condition
+   holds on the told activity and the shared closed channel is returned, or a
+   live binding with the same state set answers for the call *)
+Lemma after_subscribe : forall a s k v neg sts ctx,
+  Inv a s -> plain_ev (EOp k v (when_op neg sts ctx)) = true ->
+  ev_coh a (EOp k v (when_op neg sts ctx)) -> known v sts = true ->
+  let s' := step s (EOp k v (when_op neg sts ctx)) in
+  Inv a s' /\
+  ((told_cond neg sts a = true /\ ret_of (ss_rets s') k = RChan 0) \/
+   (told_cond neg sts a = false /\ exists b, In b (ss_wb s') /\ ret_of (ss_rets s') k = RChan (wb_id b) /\
+      live (ss_closed s') a b /\ wb_neg b = neg /\ (forall x, In x (wb_states b) <-> In x sts))).
+Proof.
+  intros a s k v neg sts ctx HI Hp Hc Hk s'.
+  assert (HI' : Inv a s').
+  { destruct (step_Inv a s _ HI Hp Hc) as [A _]. destruct neg; exact A. }
+  split; [exact HI'|].
+  subst s'. rewrite (step_op _ _ _ _ (quiet_crashed a s HI)). psimpl. cbn [ret_of]. rewrite Nat.eqb_refl.
+  assert (Hd : ss_disposed s = false) by apply HI.
+  assert (Hcoh : forall x, mem x (v_active v) = a x) by (destruct neg; exact Hc).
+  assert (Hdo : do_op s v (when_op neg sts ctx) = sub_when s v neg (uniq sts) ctx).
+  { destruct neg; unfold when_op, do_op; rewrite Hd, Hk; reflexivity. }
+  rewrite Hdo.
+  destruct (sub_when_spec a s v neg (uniq sts) ctx HI (uniq_NoDup sts) Hcoh) as [_ [_ [_ [_ Hr]]]].
+  rewrite full_told in Hr. rewrite (told_cond_seteq neg (uniq sts) sts a (uniq_In sts)) in Hr.
+  destruct Hr as [[Hf [Hr _]]|[Hf [b [Hb [Hr [Hl [Hn Hs]]]]]]].
+  - left. split; assumption.
+  - right. split; [exact Hf|]. exists b. split; [exact Hb|]. split; [exact Hr|].
+    split; [exact Hl|]. split; [exact Hn|].
+    intros x. rewrite (set_eqb_In _ _ Hs x). apply uniq_In.
+Qed.
+
+(* closed <-> the condition held on the told activity when subscribing, or
+   some later processed transition marked all its states at once during
+   ProcessWhen's walk *)
+Theorem when_iff_lemma : forall a0 pre k v neg sts ctx post,
+  let es := pre ++ EOp k v (when_op neg sts ctx) :: post in
+  forallb plain_ev es = true -> coherent a0 es -> fresh_k k post -> known v sts = true ->
+  let a1 := acts a0 pre in
+  closed_of (run init_sst es) k = told_cond neg sts a1 || walked_later neg sts a1 post.
+Proof.
+  intros a0 pre k v neg sts ctx post es Hp Hc Hf Hk a1.
+  subst es. rewrite forallb_app in Hp. apply andb_true_iff in Hp. destruct Hp as [Hp1 Hp2].
+  cbn [forallb] in Hp2. apply andb_true_iff in Hp2. destruct Hp2 as [Hpe Hp2].
+  apply coherent_app in Hc. destruct Hc as [Hc1 Hc2]. fold a1 in Hc2.
+  apply coherent_cons in Hc2. destruct Hc2 as [Hce Hc2].
+  assert (Ha : act_upd a1 (EOp k v (when_op neg sts ctx)) = a1) by reflexivity.
+  rewrite Ha in Hc2.
+  destruct (run_Inv pre a0 init_sst (Inv_init a0) Hp1 Hc1) as [HI1 Hm1]. fold a1 in HI1.
+  rewrite run_app, run_cons.
+  set (s1 := run init_sst pre) in *.
+  destruct (after_subscribe a1 s1 k v neg sts ctx HI1 Hpe Hce Hk) as [HI2 Hcase].
+  set (s2 := step s1 (EOp k v (when_op neg sts ctx))) in *.
+  unfold closed_of. rewrite (ret_stable post a1 s2 k HI2 Hp2 Hc2 Hf).
+  destruct Hcase as [[Ht Hr]|[Ht [b [Hb [Hr [Hl [Hn Hs]]]]]]]; rewrite Hr, Ht; cbn [orb].
+  - (* the shared closed channel *)
+    destruct (run_Inv post a1 s2 HI2 Hp2 Hc2) as [_ Hm]. apply Hm.
+    destruct (step_Inv a1 s1 _ HI1 Hpe Hce) as [_ [Hm2 _]]. apply Hm2. apply Hm1. reflexivity.
+  - destruct (track post a1 s2 b HI2 Hb Hl Hp2 Hc2) as [T _]. rewrite T, Hn.
+    apply walked_later_seteq. exact Hs.
+Qed.
+
+(* no lost wake-up: the channel is open only if the condition never held on
+   the told activity, neither when subscribing nor at the end of a later
+   processed transition *)
+Theorem when_no_lost_wakeup_lemma : forall a0 pre k v neg sts ctx post,
+  let es := pre ++ EOp k v (when_op neg sts ctx) :: post in
+  forallb plain_ev es = true -> coherent a0 es -> fresh_k k post -> known v sts = true ->
+  let a1 := acts a0 pre in
+  told_cond neg sts a1 || held_later (told_cond neg sts) a1 post = true ->
+  closed_of (run init_sst es) k = true.
+Proof.
+  intros a0 pre k v neg sts ctx post es Hp Hc Hf Hk a1 Hheld.
+  destruct (closed_of (run init_sst es) k) eqn:Ecl; [reflexivity|]. exfalso.
+  pose proof (when_iff_lemma a0 pre k v neg sts ctx post Hp Hc Hf Hk) as Hiff.
+  cbv zeta in Hiff. fold es a1 in Hiff. rewrite Ecl in Hiff.
+  symmetry in Hiff. apply orb_false_iff in Hiff. destruct Hiff as [Ht _].
+  rewrite Ht in Hheld. cbn [orb] in Hheld.
+  (* redo the decomposition to use the second half of [track] *)
+  subst es. rewrite forallb_app in Hp. apply andb_true_iff in Hp. destruct Hp as [Hp1 Hp2].
+  cbn [forallb] in Hp2. apply andb_true_iff in Hp2. destruct Hp2 as [Hpe Hp2].
+  apply coherent_app in Hc. destruct Hc as [Hc1 Hc2]. fold a1 in Hc2.
+  apply coherent_cons in Hc2. destruct Hc2 as [Hce Hc2].
+  assert (Ha : act_upd a1 (EOp k v (when_op neg sts ctx)) = a1) by reflexivity.
+  rewrite Ha in Hc2.
+  destruct (run_Inv pre a0 init_sst (Inv_init a0) Hp1 Hc1) as [HI1 Hm1]. fold a1 in HI1.
+  rewrite run_app, run_cons in Ecl.
+  set (s1 := run init_sst pre) in *.
+  destruct (after_subscribe a1 s1 k v neg sts ctx HI1 Hpe Hce Hk) as [HI2 Hcase].
+  set (s2 := step s1 (EOp k v (when_op neg sts ctx))) in *.
+  unfold closed_of in Ecl. rewrite (ret_stable post a1 s2 k HI2 Hp2 Hc2 Hf) in Ecl.
+  destruct Hcase as [[Ht' _]|[_ [b [Hb [Hr [Hl [Hn Hs]]]]]]]; [congruence|].
+  rewrite Hr in Ecl.
+  destruct (track post a1 s2 b HI2 Hb Hl Hp2 Hc2) as [_ T]. specialize (T Ecl).
+  rewrite Hn in T.
+  rewrite (held_later_ext (told_cond neg (wb_states b)) (told_cond neg sts)) in T.
+  - congruence.
+  - intros g. apply told_cond_seteq. exact Hs.
+Qed.
